@@ -23,6 +23,8 @@ type State struct {
 	fsms    map[int]*fsmModel  // looplab/fsm objects by ref term id
 	mapClos map[int][]cloEntry // closures stored into Go maps, by map ref term id
 	dead    bool
+	// loopEntry: the state in which each loop was entered on this path (before its havoc); read by entry(e) in invariants
+	loopEntry map[*Loop]*State
 }
 
 func (st *State) clone() *State {
@@ -43,6 +45,12 @@ func (st *State) clone() *State {
 	n.hv = make(map[string]int, len(st.hv))
 	for k, v := range st.hv {
 		n.hv[k] = v
+	}
+	if st.loopEntry != nil {
+		n.loopEntry = make(map[*Loop]*State, len(st.loopEntry))
+		for k, v := range st.loopEntry {
+			n.loopEntry[k] = v
+		}
 	}
 	if st.fsms != nil {
 		n.fsms = make(map[int]*fsmModel, len(st.fsms))
